@@ -90,6 +90,13 @@ impl Driver {
         }
     }
 
+    /// a stateless query (codec commands)
+    pub fn raw(&mut self, line: &str) -> Vec<String> {
+        let _ = writeln!(self.inp, "{}", line);
+        let _ = self.inp.flush();
+        self.read_block(None)
+    }
+
     pub fn new_instance(&mut self, line: &str) -> Vec<String> {
         let _ = writeln!(self.inp, "{}", line);
         let _ = self.inp.flush();
